@@ -3,6 +3,7 @@ package wire
 import (
 	"encoding/binary"
 	"encoding/json"
+	"errors"
 	"fmt"
 	"net/netip"
 
@@ -64,6 +65,9 @@ func (m *StrMap) UnmarshalJSON(b []byte) error {
 	*m = x
 	return nil
 }
+
+// ErrNotApplicable: the reply form makes no sense for this probe (e.g. a SYN-ACK to an ICMP echo); nothing is sent.
+var ErrNotApplicable = errors.New("reply form not applicable to this probe")
 
 // Flow is what the wire knows about the run that emitted a probe.
 type Flow struct {
@@ -202,6 +206,9 @@ func (r Reply) encode(probe []byte, fl Flow) ([]byte, error) {
 		outer.Proto = icmpProto
 		return pkt.BuildIP(outer, pkt.BuildICMP(pip.V6, outer.Src, outer.Dst, m)), nil
 	case "echo":
+		if pip.Proto != 1 && pip.Proto != 58 {
+			return nil, ErrNotApplicable
+		}
 		pm, err := pkt.ParseICMP(pip, ppl)
 		if err != nil {
 			return nil, err
@@ -216,6 +223,9 @@ func (r Reply) encode(probe []byte, fl Flow) ([]byte, error) {
 		outer.Proto = icmpProto
 		return pkt.BuildIP(outer, pkt.BuildICMP(pip.V6, outer.Src, outer.Dst, m)), nil
 	case "synack", "rst", "rstack", "sack", "ack_nosack", "tcp_flags":
+		if pip.Proto != 6 {
+			return nil, ErrNotApplicable
+		}
 		pt, err := pkt.ParseTCP(pip, ppl)
 		if err != nil {
 			return nil, err
